@@ -46,6 +46,11 @@ func ConcurrentLookalikePackage(name string) *ConcPackage {
 	add("reassign-define-bound-captured-by-goroutine", pre+"\tmu := new(sync.Mutex)\n\tv := uint64(1)\n\tmu.Lock()\n\tgo func() {\n\t\tmu.Lock()\n\t\t*out = v\n\t\tmu.Unlock()\n\t\twg.Done()\n\t}()\n\tv = 2\n\tmu.Unlock()\n\twg.Wait()\n\treturn *out\n")
 	add("opassign-define-bound-captured-by-goroutine", pre+"\tmu := new(sync.Mutex)\n\tv := uint64(1)\n\tmu.Lock()\n\tgo func() {\n\t\tmu.Lock()\n\t\t*out = v\n\t\tmu.Unlock()\n\t\twg.Done()\n\t}()\n\tv += 6\n\tmu.Unlock()\n\twg.Wait()\n\treturn *out\n")
 	add("redefine-captured-by-goroutine", pre+"\tmu := new(sync.Mutex)\n\tv := uint64(1)\n\tmu.Lock()\n\tgo func() {\n\t\tmu.Lock()\n\t\t*out = v\n\t\tmu.Unlock()\n\t\twg.Done()\n\t}()\n\tv, w2 := uint64(2), uint64(3)\n\tmu.Unlock()\n\twg.Wait()\n\treturn *out + w2 + v\n")
+	// sync.RWMutex is not sync.Mutex: two readers are inside at the same time (each waits for the other before
+	// leaving), a reader meets a pending writer only after both readers left
+	add("rwmutex-two-readers-rendezvous", "\trw := new(sync.RWMutex)\n\tmu := new(sync.Mutex)\n\tcond := sync.NewCond(mu)\n\tvar inside uint64 = 0\n\twg := new(sync.WaitGroup)\n\twg.Add(2)\n\tfor i := uint64(0); i < 2; i++ {\n\t\tgo func() {\n\t\t\trw.RLock()\n\t\t\tmu.Lock()\n\t\t\tinside = inside + 1\n\t\t\tcond.Broadcast()\n\t\t\tfor inside < 2 {\n\t\t\t\tcond.Wait()\n\t\t\t}\n\t\t\tmu.Unlock()\n\t\t\trw.RUnlock()\n\t\t\twg.Done()\n\t\t}()\n\t}\n\twg.Wait()\n\tmu.Lock()\n\tr := inside\n\tmu.Unlock()\n\treturn r\n")
+	add("rwmutex-reader-while-spawner-reads", "\trw := new(sync.RWMutex)\n\tout := new(uint64)\n\twg := new(sync.WaitGroup)\n\twg.Add(1)\n\trw.RLock()\n\tgo func() {\n\t\trw.RLock()\n\t\t*out = 4\n\t\trw.RUnlock()\n\t\twg.Done()\n\t}()\n\twg.Wait()\n\tr := *out\n\trw.RUnlock()\n\treturn r\n")
+	add("rwmutex-writer-excludes", "\trw := new(sync.RWMutex)\n\tout := new(uint64)\n\twg := new(sync.WaitGroup)\n\twg.Add(2)\n\tfor i := uint64(0); i < 2; i++ {\n\t\tgo func() {\n\t\t\trw.Lock()\n\t\t\t*out = *out + 3\n\t\t\trw.Unlock()\n\t\t\twg.Done()\n\t\t}()\n\t}\n\twg.Wait()\n\trw.RLock()\n\tr := *out\n\trw.RUnlock()\n\treturn r\n")
 	add("go-named-function-with-args", pre+"\tv := uint64(9)\n\tgo addDone(wg, out, v+1)\n\twg.Wait()\n\treturn *out\n")
 	b.WriteString("func addDone(wg *sync.WaitGroup, out *uint64, v uint64) {\n\t*out = *out + v\n\twg.Done()\n}\n\n")
 	b.WriteString("func deferInBlock(mu *sync.Mutex, x *uint64, wg *sync.WaitGroup, guarded bool) {\n\tif guarded {\n\t\tmu.Lock()\n\t\tdefer mu.Unlock()\n\t}\n\tgo func() {\n\t\tmu.Lock()\n\t\t*x = *x * 2\n\t\tmu.Unlock()\n\t\twg.Done()\n\t}()\n\t*x = *x + 1\n}\n\n")
@@ -73,7 +78,7 @@ func ConcurrentPackage(rng *core.Rng, name string, n int) *ConcPackage {
 }
 
 // NumConcTemplates is the number of template families.
-const NumConcTemplates = 22
+const NumConcTemplates = 23
 
 // ConcurrentPackageFrom: with first >= 0 the i-th case uses template (first+i) mod NumConcTemplates
 // (a sweep over packages then covers every template), with first < 0 templates are drawn at random.
@@ -431,6 +436,13 @@ func worker(mu *sync.Mutex, c *sync.Cond, wg *sync.WaitGroup, p *uint64, d uint6
 			// the expiry must get the timed waiter going again (the plain waiter re-checks its predicate and waits on)
 			tmpl, det = "timed-waiter-behind-plain-waiter", true
 			body = fmt.Sprintf("\tmu := new(sync.Mutex)\n\tcond := sync.NewCond(mu)\n\tvar stop bool = false\n\tvar served uint64 = 0\n\twg := new(sync.WaitGroup)\n\twg.Add(1)\n\tgo func() {\n\t\tmu.Lock()\n\t\tfor !stop {\n\t\t\tcond.Wait()\n\t\t}\n\t\tserved = served + %d\n\t\tmu.Unlock()\n\t\twg.Done()\n\t}()\n\tmachine.Sleep(%d)\n\tmu.Lock()\n\tmachine.WaitTimeout(cond, %d)\n\tstop = true\n\tcond.Broadcast()\n\tmu.Unlock()\n\twg.Wait()\n\tmu.Lock()\n\tr := served\n\tmu.Unlock()\n\treturn r\n", 10+c2, 1000000*(1+rng.Intn(4)), 5+rng.Intn(20))
+		case 22:
+			// the lock is BUSY at the instant the timeout expires: a third thread takes it once the waiter is
+			// parked (the waiter holds it until then), keeps it across the expiry and releases it without
+			// signalling. The expiry's wakeup has to wait for the lock, not be dropped: Go returns; a lost
+			// wakeup leaves every goroutine asleep, which the Go runtime reports (outcome DEADLOCK)
+			tmpl, det = "wait-timeout-lock-busy-at-expiry", true
+			body = fmt.Sprintf("\tmu := new(sync.Mutex)\n\tcond := sync.NewCond(mu)\n\tvar held uint64 = 0\n\twg := new(sync.WaitGroup)\n\twg.Add(1)\n\tmu.Lock()\n\tgo func() {\n\t\tmu.Lock()\n\t\tmachine.Sleep(%d)\n\t\theld = %d\n\t\tmu.Unlock()\n\t\twg.Done()\n\t}()\n\tmachine.WaitTimeout(cond, %d)\n\tr := held\n\tmu.Unlock()\n\twg.Wait()\n\treturn r + 1\n", 1000000*(20+rng.Intn(20)), 10+c1, 2+rng.Intn(8))
 		case 10:
 			// nested goroutines and a parameter captured; two locks taken in a fixed order
 			tmpl, det = "nested-spawn-two-locks", true
@@ -541,6 +553,58 @@ func (in *Inner) bump(d uint64) {
 	}
 	add("cond-pointer-field", condProg("", "p.ip"))
 	add("cond-alias-local", condProg("\tq := p.ip\n", "q"))
+	cp.Source = b.String()
+	return cp
+}
+
+// ConcurrentBodyShapesPackage: the dimension "what the body of a go statement's function literal
+// consists of". Every program's spawner holds mu across the go statement, looks at the shared cell
+// while still holding it (the new thread cannot have run: its first action takes mu), releases mu and
+// joins; the thread's body is exactly ONE statement of the kind under test (a loop of each form, a
+// conditional, a bare block, a call, a nested go). A translation that lets a part of that statement
+// escape from the forked expression (the printer's precedence of `Fork e1;; e2`, a dropped pair of
+// parentheses) runs it in the spawner, which already holds mu: every interleaving of the emitted
+// program deadlocks or returns a different value, while Go's result is schedule-independent.
+// part 1 holds the bodies with a three-clause loop (whose translation opens with a let-binding: a
+// printer defect there makes the whole file unreadable, which must not hide the other shapes), part 0
+// the rest.
+func ConcurrentBodyShapesPackage(name string, part int) *ConcPackage {
+	var b strings.Builder
+	fmt.Fprintf(&b, "package %s\n\nimport (\n\t\"sync\"\n)\n\n", name)
+	b.WriteString("func work(mu *sync.Mutex, x *uint64, wg *sync.WaitGroup, d uint64) {\n\tmu.Lock()\n\t*x = *x + d\n\tmu.Unlock()\n\twg.Done()\n}\n\n")
+	cp := &ConcPackage{Package: &Package{Name: name, Features: map[string]int{}}, Info: map[string]ConcCase{}, MayReject: true}
+	add := func(tmpl, body string) {
+		if (part == 1) != strings.Contains(body, "; i++ {") {
+			return
+		}
+		cn := fmt.Sprintf("case_b%d", len(cp.Cases))
+		fmt.Fprintf(&b, "func %s() uint64 {\n%s}\n\n", cn, body)
+		cp.Cases = append(cp.Cases, cn)
+		cp.Info[cn] = ConcCase{Name: cn, Det: true, Tmpl: "body-" + tmpl}
+		cp.Features["conc-body-"+tmpl]++
+	}
+	prog := func(setup, stmt, after string) string {
+		return "\tmu := new(sync.Mutex)\n\twg := new(sync.WaitGroup)\n\tx := new(uint64)\n" + setup + "\twg.Add(1)\n\tmu.Lock()\n\tgo func() {\n" + stmt + "\t}()\n" + after + "\tr0 := *x\n\tmu.Unlock()\n\twg.Wait()\n\tmu.Lock()\n\tr := r0*1000 + *x\n\tmu.Unlock()\n\treturn r\n"
+	}
+	locked := func(ind, inner string) string {
+		return ind + "mu.Lock()\n" + inner + ind + "mu.Unlock()\n"
+	}
+	add("for-three-clause", prog("", "\t\tfor i := uint64(0); i < 3; i++ {\n"+locked("\t\t\t", "\t\t\t*x = *x + i + 1\n\t\t\tif i == 2 {\n\t\t\t\twg.Done()\n\t\t\t}\n")+"\t\t}\n", ""))
+	add("for-condition-only", prog("\tn := new(uint64)\n", "\t\tfor *n < 3 {\n"+locked("\t\t\t", "\t\t\t*n = *n + 1\n\t\t\t*x = *x + 2\n\t\t\tif *n == 3 {\n\t\t\t\twg.Done()\n\t\t\t}\n")+"\t\t}\n", ""))
+	add("for-infinite-with-break", prog("\tn := new(uint64)\n", "\t\tfor {\n"+locked("\t\t\t", "\t\t\t*n = *n + 1\n\t\t\t*x = *x + 3\n")+"\t\t\tif *n == 2 {\n\t\t\t\twg.Done()\n\t\t\t\tbreak\n\t\t\t}\n\t\t\tcontinue\n\t\t}\n", ""))
+	add("range-slice", prog("\txs := make([]uint64, 3)\n\txs[0] = 1\n\txs[1] = 2\n\txs[2] = 4\n", "\t\tfor i, v := range xs {\n"+locked("\t\t\t", "\t\t\t*x = *x + v\n\t\t\tif i == 2 {\n\t\t\t\twg.Done()\n\t\t\t}\n")+"\t\t}\n", ""))
+	add("range-map", prog("\tm := make(map[uint64]uint64)\n\tm[5] = 6\n", "\t\tfor k, v := range m {\n"+locked("\t\t\t", "\t\t\t*x = *x + k + v\n\t\t\twg.Done()\n")+"\t\t}\n", ""))
+	add("if-else", prog("\tflag := new(bool)\n\t*flag = true\n", "\t\tif *flag {\n"+locked("\t\t\t", "\t\t\t*x = *x + 5\n")+"\t\t\twg.Done()\n\t\t} else {\n\t\t\twg.Done()\n\t\t}\n", ""))
+	add("bare-block", prog("", "\t\t{\n"+locked("\t\t\t", "\t\t\t*x = *x + 6\n")+"\t\t\twg.Done()\n\t\t}\n", ""))
+	add("single-call", prog("", "\t\twork(mu, x, wg, 7)\n", ""))
+	add("nested-go", prog("", "\t\tgo func() {\n"+locked("\t\t\t", "\t\t\t*x = *x + 8\n")+"\t\t\twg.Done()\n\t\t}()\n", ""))
+	add("two-statements", prog("", locked("\t\t", "\t\t*x = *x + 9\n")+"\t\twg.Done()\n", ""))
+	add("loop-then-statement", prog("", "\t\tfor i := uint64(0); i < 2; i++ {\n"+locked("\t\t\t", "\t\t\t*x = *x + 1\n")+"\t\t}\n\t\twg.Done()\n", ""))
+	add("statement-then-loop", prog("", locked("\t\t", "\t\t*x = *x + 1\n")+"\t\tfor i := uint64(0); i < 2; i++ {\n"+locked("\t\t\t", "\t\t\t*x = *x + 1\n\t\t\tif i == 1 {\n\t\t\t\twg.Done()\n\t\t\t}\n")+"\t\t}\n", ""))
+	add("for-three-clause-then-spawner-work", prog("", "\t\tfor i := uint64(0); i < 3; i++ {\n"+locked("\t\t\t", "\t\t\t*x = *x * 2\n\t\t\tif i == 2 {\n\t\t\t\twg.Done()\n\t\t\t}\n")+"\t\t}\n", "\t*x = *x + 1\n"))
+	// the same single-statement bodies without the spawner holding a lock: what the thread's loop sees is
+	// decided by what the spawner does AFTER the go statement, under the lock
+	add("for-waits-for-spawner", "\tmu := new(sync.Mutex)\n\twg := new(sync.WaitGroup)\n\tx := new(uint64)\n\tgo1 := new(bool)\n\twg.Add(1)\n\tgo func() {\n\t\tfor {\n\t\t\tmu.Lock()\n\t\t\tif *go1 {\n\t\t\t\t*x = *x + 10\n\t\t\t\tmu.Unlock()\n\t\t\t\twg.Done()\n\t\t\t\tbreak\n\t\t\t}\n\t\t\tmu.Unlock()\n\t\t\tcontinue\n\t\t}\n\t}()\n\tmu.Lock()\n\t*x = 5\n\t*go1 = true\n\tmu.Unlock()\n\twg.Wait()\n\tmu.Lock()\n\tr := *x\n\tmu.Unlock()\n\treturn r\n")
 	cp.Source = b.String()
 	return cp
 }
